@@ -180,6 +180,13 @@ def method_product(ctx):
         app = [e for e in facts_in_body(ex, b, Effect) if pmatch("Q_l.append(Q_x)", e.call) and pmatch("Q_l.append(Q_x)", e.call)["x"] == ("ret", tc[0].callid)]
         cmb = [c for c in calls if has("self.combiner", c.callee)]
         okc = len(app) == 1 and len(cmb) == 1 and cmb[0].args == (pmatch("Q_l.append(Q_x)", app[0].call)["l"],) and b.ret == ("ret", cmb[0].callid)
+        if not okc and len(cmb) == 1 and len(cmb[0].args) == 1 and cmb[0].args[0][0] in ("lc", "obj"):
+            # the results collected by a comprehension (also what the extractor makes of `r = []; for t in ..: r.append(t(m, arg))`)
+            lc = cmb[0].args[0]
+            if lc[0] == "obj" and ex.obj(lc) is not None:
+                lc = ex.obj(lc).ctor
+            okc = (lc[0] == "lc" and lc[1] == "list" and lc[2] == ("ret", tc[0].callid) and len(lc[3]) == 1 and not lc[3][0][2]
+                   and lc[3][0][1] == pat("self.targets") and b.ret == ("ret", cmb[0].callid))
         ctx.check(okc, "C18.product-combines", b.site, "MethodProduct.result", found=tstr(b.ret) if b.ret else "none", required="the combiner is applied to all collected results")
     _creates_provide(ctx, "MethodProduct", "targets", True)
 
